@@ -142,32 +142,43 @@ theorem want_demand (mok : MachineOK c fm m) {s : Nat} (hs : s < m.states.length
             rw [hd]
             exact ⟨_, rfl, rfl⟩
 
+/-- the two reported items themselves are an LALR(1) conflict of the grammar: each lies in a canonical LR(1) state
+with the cores of the reported state, and they want different actions on one column -/
+theorem genuine_lalr (ok : Assemble.CtxOK c) (hlen : fm.length = c.nN) (mok : MachineOK c fm m) {s : Nat} {e n : Item}
+    (h : Genuine c m s e n) :
+    ∃ (I1 I2 : Item → Prop) (col : Nat) (w1 w2 : Want),
+      CanonState c fm I1 ∧ CanonState c fm I2 ∧ SameCoresPS I1 (m.states.getD s []) ∧
+      SameCoresPS I2 (m.states.getD s []) ∧ I1 e ∧ I2 n ∧
+      want c e = some (col, w1) ∧ want c n = some (col, w2) ∧ w1 ≠ w2 := by
+  obtain ⟨⟨st, hst, he, hn⟩, col, ae, an, hde, hdn, hne⟩ := h
+  have hs : s < m.states.length := by
+    rcases Nat.lt_or_ge s m.states.length with h | h
+    · exact h
+    · rw [List.getElem?_eq_none h] at hst; cases hst
+  have hget : m.states.getD s [] = st := by
+    rw [List.getD_eq_getElem?_getD, hst]; rfl
+  rw [← hget] at he hn
+  obtain ⟨I1, hI1, hsc1, hy1⟩ := machine_in_canon ok hlen mok (mok.just s hs e he)
+  obtain ⟨I2, hI2, hsc2, hy2⟩ := machine_in_canon ok hlen mok (mok.just s hs n hn)
+  obtain ⟨hw1, hsh1⟩ := demand_want hde
+  obtain ⟨hw2, hsh2⟩ := demand_want hdn
+  refine ⟨I1, I2, col, kindOf ae, kindOf an, hI1, hI2, hsc1, hsc2, hy1, hy2, hw1, hw2, ?_⟩
+  intro hk
+  apply hne
+  cases ae <;> cases an <;> simp only [kindOf] at hk <;> try cases hk
+  · rename_i d1 d2
+    have := (hsh1 d1 rfl).symm.trans (hsh2 d2 rfl)
+    cases this; rfl
+  · rfl
+  · rfl
+  · rfl
+
 theorem genuine_iff_lalrConflict (ok : Assemble.CtxOK c) (hlen : fm.length = c.nN) (mok : MachineOK c fm m) :
     (∃ s e n, Genuine c m s e n) ↔ LalrConflict c fm := by
   constructor
-  · rintro ⟨s, e, n, ⟨st, hst, he, hn⟩, col, ae, an, hde, hdn, hne⟩
-    have hs : s < m.states.length := by
-      rcases Nat.lt_or_ge s m.states.length with h | h
-      · exact h
-      · rw [List.getElem?_eq_none h] at hst; cases hst
-    have hget : m.states.getD s [] = st := by
-      rw [List.getD_eq_getElem?_getD, hst]; rfl
-    rw [← hget] at he hn
-    obtain ⟨I1, hI1, hsc1, hy1⟩ := machine_in_canon ok hlen mok (mok.just s hs e he)
-    obtain ⟨I2, hI2, hsc2, hy2⟩ := machine_in_canon ok hlen mok (mok.just s hs n hn)
-    obtain ⟨hw1, hsh1⟩ := demand_want hde
-    obtain ⟨hw2, hsh2⟩ := demand_want hdn
-    refine ⟨I1, I2, e, n, col, kindOf ae, kindOf an, hI1, hI2, fun p => (hsc1 p).trans (hsc2 p).symm, hy1, hy2,
-      hw1, hw2, ?_⟩
-    intro hk
-    apply hne
-    cases ae <;> cases an <;> simp only [kindOf] at hk <;> try cases hk
-    · rename_i d1 d2
-      have := (hsh1 d1 rfl).symm.trans (hsh2 d2 rfl)
-      cases this; rfl
-    · rfl
-    · rfl
-    · rfl
+  · rintro ⟨s, e, n, h⟩
+    obtain ⟨I1, I2, col, w1, w2, hI1, hI2, hsc1, hsc2, hy1, hy2, hw1, hw2, hne⟩ := genuine_lalr ok hlen mok h
+    exact ⟨I1, I2, e, n, col, w1, w2, hI1, hI2, fun p => (hsc1 p).trans (hsc2 p).symm, hy1, hy2, hw1, hw2, hne⟩
   · rintro ⟨I1, I2, y1, y2, col, w1, w2, hI1, hI2, hcores, hy1, hy2, hw1, hw2, hne⟩
     obtain ⟨s1, hs1, hsc1, hin1⟩ := canon_in_machine ok hlen mok hI1
     obtain ⟨s2, hs2, hsc2, hin2⟩ := canon_in_machine ok hlen mok hI2
